@@ -126,7 +126,15 @@ type funcState struct {
 	fd   *core.FuncDecl
 	info *types.Info
 	vars map[*types.Var]atomSet
-	ld   *core.LocalDefs
+	// fields: what was stored into field F of the object held by variable v
+	// (flow-insensitive), so that v.F evaluates to it as well as to v's owner
+	fields map[fieldKey]atomSet
+	ld     *core.LocalDefs
+}
+
+type fieldKey struct {
+	v *types.Var
+	f string
 }
 
 func (a *freshAnalysis) summary(fn *types.Func) *freshSummary {
@@ -143,7 +151,7 @@ func (a *freshAnalysis) summary(fn *types.Func) *freshSummary {
 		s.done, s.inProg = true, false
 		return s
 	}
-	st := &funcState{a: a, fd: fd, info: fd.Pkg.TypesInfo, vars: map[*types.Var]atomSet{}, ld: core.NewLocalDefs(fd.Pkg.TypesInfo, fd.Decl.Body)}
+	st := &funcState{a: a, fd: fd, info: fd.Pkg.TypesInfo, vars: map[*types.Var]atomSet{}, fields: map[fieldKey]atomSet{}, ld: core.NewLocalDefs(fd.Pkg.TypesInfo, fd.Decl.Body)}
 	st.solve()
 	// returns
 	ff := core.NewFuncFlow(fd)
@@ -239,8 +247,19 @@ func (st *funcState) solve() {
 			switch s := n.(type) {
 			case *ast.AssignStmt:
 				for i, l := range s.Lhs {
+					if se, isSel := ast.Unparen(l).(*ast.SelectorExpr); isSel && len(s.Rhs) == len(s.Lhs) {
+						if bv := core.VarOf(st.info, se.X); bv != nil && refLike(st.info.TypeOf(se)) {
+							k := fieldKey{bv, se.Sel.Name}
+							if st.fields[k] == nil {
+								st.fields[k] = atomSet{}
+							}
+							if st.fields[k].add(st.eval(s.Rhs[i], 0)) {
+								changed = true
+							}
+						}
+					}
 					v := core.VarOf(st.info, l)
-					if v == nil || !refLike(v.Type()) {
+					if v == nil || !(refLike(v.Type()) || structLike(v.Type())) {
 						continue
 					}
 					if _, isParam := paramIndex(st.fd.Obj, v); isParam {
@@ -283,7 +302,7 @@ func (st *funcState) solve() {
 				}
 			case *ast.RangeStmt:
 				if s.Value != nil {
-					if v := core.VarOf(st.info, s.Value); v != nil && refLike(v.Type()) {
+					if v := core.VarOf(st.info, s.Value); v != nil && (refLike(v.Type()) || structLike(v.Type())) {
 						if st.vars[v] == nil {
 							st.vars[v] = atomSet{}
 						}
@@ -361,6 +380,13 @@ func (st *funcState) eval(e ast.Expr, depth int) atomSet {
 					out[aFresh] = true
 				default:
 					out[at] = true
+				}
+			}
+			if bv := core.VarOf(st.info, x.X); bv != nil {
+				for at := range st.fields[fieldKey{bv, x.Sel.Name}] {
+					if at != aNil {
+						out[at] = true
+					}
 				}
 			}
 			if len(out) == 0 {
@@ -484,6 +510,8 @@ func (st *funcState) mutations(report func(base atomSet, what string, pos token.
 				case *ast.IndexExpr:
 					if own := ownerOf(info, lx.X); own != nil && st.a.protected(info.TypeOf(own)) {
 						report(st.eval(own, 0), "stores into an element of "+types.ExprString(lx.X), l.Pos())
+					} else if isDocMap(info.TypeOf(lx.X)) {
+						report(mapOrigin(st, lx.X), "stores into the map "+types.ExprString(lx.X)+" ("+core.TypeString(info.TypeOf(lx.X))+")", l.Pos())
 					}
 				case *ast.StarExpr:
 					if st.a.protected(info.TypeOf(lx.X)) {
@@ -493,6 +521,12 @@ func (st *funcState) mutations(report func(base atomSet, what string, pos token.
 			}
 		case *ast.CallExpr:
 			id, ok := s.Fun.(*ast.Ident)
+			if ok && id.Name == "delete" && len(s.Args) == 2 {
+				if _, isB := info.Uses[id].(*types.Builtin); isB && isDocMap(info.TypeOf(s.Args[0])) {
+					report(mapOrigin(st, s.Args[0]), "deletes from the map "+types.ExprString(s.Args[0])+" ("+core.TypeString(info.TypeOf(s.Args[0]))+")", s.Pos())
+				}
+				return true
+			}
 			if !ok || id.Name != "append" || len(s.Args) < 1 {
 				return true
 			}
@@ -588,4 +622,50 @@ func definitionTypes(c *core.Ctx) (func(types.Type) bool, []string) {
 		n, st := core.StructOf(t)
 		return n != nil && st != nil && prot[n]
 	}, names
+}
+
+// isDocMap: a named map type of the module (tax.Extensions, cbc.Meta, ...):
+// document data that definitions also hold, so a document may end up holding a
+// definition's own map.
+func isDocMap(t types.Type) bool {
+	n, ok := t.(*types.Named)
+	if !ok || !core.InModule(n.Obj().Pkg()) {
+		return false
+	}
+	_, isMap := n.Underlying().(*types.Map)
+	return isMap
+}
+
+// mapOrigin: where the map itself (not the object holding it) comes from: only
+// Shared matters here — a map that is a field of a parameter belongs to the
+// caller's document unless a shared map was stored into that field.
+func mapOrigin(st *funcState, e ast.Expr) atomSet {
+	e = ast.Unparen(e)
+	out := atomSet{}
+	if se, ok := e.(*ast.SelectorExpr); ok {
+		if bv := core.VarOf(st.info, se.X); bv != nil {
+			for at := range st.fields[fieldKey{bv, se.Sel.Name}] {
+				if at.kind == 2 {
+					out[at] = true
+				}
+			}
+			return out
+		}
+	}
+	for at := range st.eval(e, 0) {
+		if at.kind == 2 {
+			out[at] = true
+		}
+	}
+	return out
+}
+
+// structLike: a struct held by value; its reference-typed members still point
+// to wherever the copied struct's members pointed.
+func structLike(t types.Type) bool {
+	if t == nil {
+		return false
+	}
+	_, ok := t.Underlying().(*types.Struct)
+	return ok
 }
